@@ -92,6 +92,28 @@ class Run:
     __slots__ = ("rc", "sig", "out", "err", "timed_out", "cpu_exceeded", "link_failed", "link_err")
 
 
+def link(workdir, obj, extra_objs=(), exe_name="prog"):
+    """returns (exe path or None, error text)"""
+    exe = os.path.join(workdir, exe_name)
+    for flags in (["-no-pie"], []):
+        r = C.run_proc(["gcc"] + flags + [obj, C.RT_OBJ] + list(extra_objs) + ["-o", exe, "-lm"], cwd=workdir, cpu_s=60, mem_gb=8)
+        if r.rc == 0:
+            return exe, ""
+    return None, r.err[-800:]
+
+
+def run_exe(exe, env_extra=None, cpu_s=5, cwd=None):
+    env = dict(C.ENV_BASE)
+    if env_extra:
+        env.update({k: str(v) for k, v in env_extra.items()})
+    p = C.run_proc([exe], cwd=cwd or os.path.dirname(exe), cpu_s=cpu_s, mem_gb=4, env=env)
+    res = Run()
+    res.link_failed, res.link_err = False, ""
+    res.rc, res.sig, res.out, res.err = p.rc, p.sig, p.out, p.err
+    res.timed_out, res.cpu_exceeded = p.timed_out, p.cpu_exceeded
+    return res
+
+
 def link_and_run(workdir, obj, extra_objs=(), cpu_s=5, exe_name="prog", valgrind=False):
     exe = os.path.join(workdir, exe_name)
     r = C.run_proc(["gcc", "-no-pie", obj, C.RT_OBJ] + list(extra_objs) + ["-o", exe, "-lm"], cwd=workdir, cpu_s=60, mem_gb=8)
@@ -137,6 +159,8 @@ vr_watch :: (id: i64, p: rawptr, len: u64) extern;
 vr_flush :: () extern;
 vr_opaque_i64 :: (v: i64) -> i64 extern;
 vr_opaque_u64 :: (v: u64) -> u64 extern;
+vr_sel :: () -> i64 extern;
+vr_arg :: () -> i64 extern;
 """
 
 
